@@ -552,6 +552,11 @@ def tamper(batch, res):
                         res.count("obs_altered_into_version_negotiation")
                         continue
                     dgram = alt + (bytes(max(0, 1200 - len(alt))) if pad else b"")
+                    if dgram[: len(pkt)] == pkt:
+                        # truncation followed by zero padding reproduces the genuine packet when the cut
+                        # bytes were zeros themselves (1 in 256 for a one-byte cut): not an alteration
+                        res.count("obs_truncation_equals_genuine_after_padding")
+                        continue
                     before = digest(R)
                     try:
                         R.receive_datagram(dgram, ls.simnet.CLIENT_ADDR if sender == "client" else ls.simnet.SERVER_ADDR, now=ls.now)
